@@ -7899,6 +7899,12 @@ class SFTPServer:
         oldpath = _to_local_path(self.map_path(oldpath))
         newpath = _to_local_path(self.map_path(newpath))
 
+        # A second name for a symbolic link would make its relative target
+        # apply from another directory, where it may lead out of the root
+        if self._chroot and os.path.islink(oldpath):
+            raise SFTPPermissionDenied('Hard links to symbolic links '
+                                       'not permitted')
+
         os.link(oldpath, newpath)
         return None
 
